@@ -29,7 +29,7 @@ FLOORS = {"quick": {"corpus_molecules": 80, "molecules_typed": 150, "renumbering
 # small molecules and ions, one token each: every element the bundled rule file names (alkali / alkaline-earth / transition-metal ions, halides,
 # S, P, Si) and the common functional groups -- the readers of the two parameter files are exercised far beyond polymer chemistry
 CORPUS = [
-    "[Na+]", "[Li+]", "[K+]", "[Rb+]", "[Cs+]", "[Mg+2]", "[Ca+2]", "[Sr+2]", "[Ba+2]", "[Fe+2]", "[Cu+2]", "[Cl-]", "[Br-]", "[I-]", "[F-]", "[Zn+2]", "[Al+3]", "[He]", "[Ar]",
+    "C[Si](C)(C)O[Si](C)(C)O[Si](C)(C)C", "C[Se]C", "[Na+]", "[Li+]", "[K+]", "[Rb+]", "[Cs+]", "[Mg+2]", "[Ca+2]", "[Sr+2]", "[Ba+2]", "[Fe+2]", "[Cu+2]", "[Cl-]", "[Br-]", "[I-]", "[F-]", "[Zn+2]", "[Al+3]", "[He]", "[Ar]",
     "O", "N", "C", "CC", "CCO", "CO", "C=C", "C#C", "CC=O", "CC(C)=O", "CC(=O)O", "CC(=O)[O-]", "CC(=O)OC", "COC", "CN", "CNC", "CN(C)C", "C[NH3+]", "C[N+](C)(C)C", "CC(N)=O",
     "CC(=O)NC", "CC#N", "C[N+](=O)[O-]", "CS", "CSC", "CSSC", "CS(C)=O", "CS(C)(=O)=O", "COP(=O)(OC)OC", "CP(C)C", "C[Si](C)(C)C", "CF", "C(F)(F)F", "CCl", "C(Cl)(Cl)Cl", "CBr", "CI",
     "c1ccccc1", "Cc1ccccc1", "Oc1ccccc1", "Nc1ccccc1", "Fc1ccccc1", "Clc1ccccc1", "Brc1ccccc1", "c1ccncc1", "c1ccoc1", "c1ccsc1", "C1CCCCC1", "C1CCOC1", "C1CC1", "OCCO", "OCC(O)CO",
@@ -42,9 +42,11 @@ def plan(tier, seed):
     n = 48 if tier == "quick" else 900
     cases = [{"seed": seed * 1001203 + i, "mols": 5, "renum": 3 if tier == "quick" else 12} for i in range(n)]
     chunk = 13
+    first = []
     for i in range(0, len(CORPUS), chunk):
-        cases.append({"seed": seed * 1001209 + i, "corpus": [i, min(len(CORPUS), i + chunk)], "mols": 0, "renum": 2 if tier == "quick" else 8})
-    return cases
+        first.append({"seed": seed * 1001209 + i, "corpus": [i, min(len(CORPUS), i + chunk)], "mols": 0, "renum": 2 if tier == "quick" else 8})
+    # the corpus chunks come first: a worker types them before any call with the edited rule file has been made in its process
+    return first + cases
 
 
 def setup_worker():
@@ -63,6 +65,23 @@ def files_copy():
     return a, b
 
 
+def files_edited():
+    """a valid, user-EDITED rule file: the bundled rules plus two rules of its own (siloxane oxygen typed as ether oxygen, selenium typed as sulfur);
+    what it assigns is the user's business -- but nothing of it may show in later calls that use the defaults or copies of the bundled files"""
+    a, b = files_copy()
+    e = os.path.join(os.path.dirname(a), "opls_edited.par")
+    if not os.path.exists(e):
+        txt = open(a).read()
+        if not txt.endswith("\n"):
+            txt += "\n"
+        txt += "O   |  OS       |   opls_180   |  [$([OX2]([Si])[Si])]\n"
+        txt += "S   |  S        |   opls_202   |  [$([Se])]\n"
+        tmp = e + f".{os.getpid()}.tmp"
+        open(tmp, "w").write(txt)
+        os.replace(tmp, e)
+    return e, b
+
+
 def type_of(p):
     return (p.bond_type_name, round(p.mass, 4), round(p.charge, 4), round(p.sigma, 6), round(p.epsilon, 6))
 
@@ -73,7 +92,10 @@ def do_type(g, explicit):
 
     try:
         with time_limit(120):
-            if explicit:
+            if explicit == "edited":
+                a, b = files_edited()
+                ff, mol = g.get_forcefield_types(smarts_filename=a, nb_filename=b)
+            elif explicit:
                 a, b = files_copy()
                 ff, mol = g.get_forcefield_types(smarts_filename=a, nb_filename=b)
             else:
@@ -97,10 +119,18 @@ def judge(g, text, rng, case, cnt, viol, nt):
     hist = [rng.random() < 0.4 for _ in range(rng.randint(2, 5))]
     if not any(hist):
         hist[rng.randrange(len(hist))] = True
+    if any(x in text for x in ("[Si]", "[Se]")):
+        hist = [False, "edited", False, True]  # the edited file has rules of its own for these elements: default / edited / default / copies
+    elif rng.random() < 0.5:
+        # a call with a user-edited rule file somewhere in the history (never last): its own result is not judged, later calls are
+        hist.insert(rng.randrange(1, len(hist)), "edited")
     results = []
     for explicit in hist:
         r = do_type(g, explicit)
         cnt["typing_calls"] += 1
+        if explicit == "edited":
+            cnt["edited_file_calls"] += 1
+            continue
         cnt["explicit_file_calls" if explicit else "default_calls"] += 1
         results.append((explicit, r))
     base = next((r for e, r in results if not e), results[0][1])
